@@ -67,15 +67,21 @@ def run(ctx):
         "budget-3-beyond-end": (3, [5, 3], [7], None),
         "halt-at-first-cycle": (5, [0, 1], [1], 1),
         "halt-at-third-cycle": (6, [2, 4], [0, 2, 5], 3),
+        # the same for an error halt (the loop ends for every state other than Running, not just a regular stop)
+        "error-halt-at-first-cycle": (5, [0, 1], [1], 1),
+        "error-halt-at-third-cycle": (6, [2, 4], [0, 2, 5], 3),
+        "error-halt-then-late-reset": (9, [], [7], 2),
     }
+    ERRSTOP = p.variant_index(STATE, "ErrorStopped")
 
     for name, (n, ints, rsts, halt_after) in scenarios.items():
+        halt_state = ERRSTOP if name.startswith("error-") else STOPPED
         I = absint.Interp(p)
         I.unroll = 16
         problems = []
 
         def log_call(tok):
-            def stub(I_, st, depth, callee, args, body, ln, tok=tok):
+            def stub(I_, st, depth, callee, args, body, ln, tok=tok, halt_state=halt_state):
                 tr = st.store.get(TRACE)
                 if not isinstance(tr, Arr):
                     problems.append("trace lost")
@@ -84,7 +90,7 @@ def run(ctx):
                 if tok == CLK and halt_after is not None:
                     nclk = sum(1 for x in st.store[TRACE].e if x == CLK)
                     if nclk >= halt_after and isinstance(args[0], Ref):
-                        I_.store_to(st, args[0].alloc, args[0].path + (raw_i, st_i), En({STOPPED: ()}))
+                        I_.store_to(st, args[0].alloc, args[0].path + (raw_i, st_i), En({halt_state: ()}))
                 return Agg(())
             return stub
 
